@@ -1,6 +1,6 @@
 (* C11 — `list` returns exactly the recorded messages that match, with honest counts. *)
 From WD Require Import Base Wire Protocol Conn Color LetterId Matcher MatcherParse Show Session.
-From WD Require Import ControllerProofs SessionProofs.
+From WD Require Import ControllerProofs SessionProofs IsolationRuns StreamSpecA SeparatorRuns SessionColorD ListRuns.
 Open Scope Z_scope.
 
 (* the scan behind `list`: exactly the matching recorded messages oldest first; with a cap N >= 1
@@ -27,3 +27,42 @@ Example C11_ex :
   let s := init_sess (MAlways true) (MAlways false) false true false in
   scan_matching s (MAlways true) (Some 2%nat) (rev [mk 1; mk 2; mk 3]) [] 0 = ([mk 2; mk 3], 0%nat, 1%nat).
 Proof. vm_compute. reflexivity. Qed.
+
+(* ---- WHOLE SESSIONS (Proofs/ListRuns.v): any start state, any message / text / command events -------------------
+   the record is exactly what the message lines delivered, in order; refused lines, text lines, commands add nothing *)
+Theorem C11_record_is_delivered : forall P evs T, forallb log_event evs = true ->
+  kall (fst (run P T evs)) = kall T ++ delivered P T evs.
+Proof. exact record_is_delivered. Qed.
+Print Assumptions C11_record_is_delivered.
+
+(* the k-th event, a command line that resolves to `list` (any spelling: list, l, wl list ...): it shows exactly
+   the last-N of the matching messages among those recorded BEFORE it (of the selected connection, or of all),
+   oldest first; the counts add up to the size of the scope; nothing but the separator memory changes *)
+Theorem C11_list_shows_delivered : forall P T evs k c a errs mm cap,
+  forallb log_event evs = true -> idx_ok (t_sess T) ->
+  nth_error evs k = Some (ECmd c) -> resolved c = Some (s2l "list", a) ->
+  let s := at_ P T evs k in
+  list_query s a = QList errs mm cap ->
+  let scope := scope_run P T (firstn k evs) (k_current (s_ctrl s)) in
+  let shown := lastn_opt (cap_of cap) (filter (fun x => matches mm (msg_view s x)) scope) in
+  exists o, nth_error (snd (run P T evs)) k = Some o /\
+    shown_msgs o = shown /\
+    (shown = [] ->
+       o = errs ++ [header_line (s_color s) mm; none_line (s_color s) (s_conns s) (List.length scope)]) /\
+    (shown <> [] -> exists outs didnt ns,
+       o = errs ++ [header_line (s_color s) mm] ++ outs ++ [counts_line (s_color s) (List.length shown) didnt ns] /\
+       SeparatorRuns.strip outs = map (list_item s) shown /\
+       (List.length shown + didnt + ns = List.length scope)%nat /\
+       (ns = 0%nat \/ exists n, cap_of cap = Some n /\ (n <= List.length shown)%nat)).
+Proof. exact list_shows_delivered. Qed.
+Print Assumptions C11_list_shows_delivered.
+
+(* listing changes nothing a later listing depends on: the same `list` twice, with only text lines and commands
+   other than filter / connection in between, prints the same lines *)
+Theorem C11_repeated_list : forall P T evs k k' c a,
+  nth_error evs k = Some (ECmd c) -> nth_error evs k' = Some (ECmd c) -> (k < k')%nat ->
+  resolved c = Some (s2l "list", a) ->
+  (forall i, (k < i < k')%nat -> exists e, nth_error evs i = Some e /\ keeps_event e) ->
+  exists o, nth_error (snd (run P T evs)) k = Some o /\ nth_error (snd (run P T evs)) k' = Some o.
+Proof. exact repeated_list. Qed.
+Print Assumptions C11_repeated_list.
